@@ -157,7 +157,7 @@ def run(tier):
     obs = obligations(cv)
     oblig.run_obligations(chk, obs)
     conj = [
-        ('src/rsa/rsa_pss_sig_unpad.c', 'br_rsa_pss_sig_unpad', 'r', 'or', 6,
+        ('src/rsa/rsa_pss_sig_unpad.c', 'br_rsa_pss_sig_unpad', 'r', 'or', 7,
          'each PSS structure element (top bits, 0xBC trailer, zero padding, 0x01 separator, hash comparison) must be a conjunct of the verdict'),
         ('src/rsa/rsa_ssl_decrypt.c', 'br_rsa_ssl_decrypt', 'x', 'and', 4,
          'each PKCS#1 type-2 structure element (00, 02, non-zero padding, 00 separator) must be a conjunct of the verdict'),
